@@ -15,7 +15,8 @@ contract(f"{Q}.to",
          requires={"q": "QWF(self)", "noctx": "len(contexts) == 0"},
          cases=[
              {"_name": "uc", "other": "Ref[UnitsContainer]",
-              "_requires": ["wf(other) and names_ok(other) and exact_class(other, 'UnitsContainer') and dims_ok(other, self._REGISTRY)"],
+              "_requires": ["wf(other) and names_ok(other) and exact_class(other, 'UnitsContainer') and dims_ok(other, self._REGISTRY) "
+                            "and AllMult(self._REGISTRY, other) and FacOf(other, 1) > 0"],
               "_raises": {"DimensionalityError": "exists[Str](lambda b: b != '[]' and DimOf(b, self._units) != DimOf(b, other))"}},
              {"_name": "empty_dict", "other": "Opaque",
               "_raises": {"DimensionalityError": "exists[Str](lambda b: b != '[]' and DimOf(b, self._units) != 0)"}},
@@ -34,7 +35,8 @@ contract(f"{Q}.ito",
          requires={"q": "QWF(self)", "noctx": "len(contexts) == 0"},
          cases=[
              {"_name": "uc", "other": "Ref[UnitsContainer]",
-              "_requires": ["wf(other) and names_ok(other) and exact_class(other, 'UnitsContainer') and dims_ok(other, self._REGISTRY)"],
+              "_requires": ["wf(other) and names_ok(other) and exact_class(other, 'UnitsContainer') and dims_ok(other, self._REGISTRY) "
+                            "and AllMult(self._REGISTRY, other) and FacOf(other, 1) > 0"],
               "_raises": {"DimensionalityError": "exists[Str](lambda b: b != '[]' and DimOf(b, self._units) != DimOf(b, other))"}},
              {"_name": "empty_dict", "other": "Opaque",
               "_raises": {"DimensionalityError": "exists[Str](lambda b: b != '[]' and DimOf(b, self._units) != 0)"}},
@@ -53,7 +55,8 @@ contract(f"{Q}.dimensionless", params={"self": "Ref[PlainQuantity]"}, returns="B
 contract(f"{QTO}:_get_reduced_units",
          params={"quantity": "Ref[PlainQuantity]", "units": "Ref[UnitsContainer]"}, returns="Ref[UnitsContainer]",
          requires={"q": "QWF(quantity)"},
-         ensures={"wf": "wf(result) and names_ok(result) and exact_class(result, 'UnitsContainer') and dims_ok(result, quantity._REGISTRY)",
+         ensures={"wf": "wf(result) and names_ok(result) and exact_class(result, 'UnitsContainer') and dims_ok(result, quantity._REGISTRY) "
+                        "and AllMult(quantity._REGISTRY, result) and FacOf(result, 1) > 0",
                   "q": "QWF(quantity)", "hashes": "HashesKept()"},
          modifies=["contents(quantity._REGISTRY._cache.dimensionality)", "contents(quantity._REGISTRY._cache.root_units)",
                    "contents(quantity._REGISTRY._cache.conversion_factor)", "allof(UnitsContainer._hash)"],
